@@ -8,7 +8,7 @@ ENGINE_B = {'template': 't_marks', 'kinds': ['marks_', 'layout_', 'enum_'], 'max
             'fixed': [[8, 1, 1, 0, 1, 1, 0, 1, 0, 2, 1, 2, 1, 1, 0, 1, 1, 1, 2, 2, 0], [8, 0, 0, 1, 0, 0, 1, 0, 1, 0, 2, 0, 0, 0, 1, 0, 2, 0, 1, 0, 1],
                       [8, 1, 0, 0, 0, 0, 0, 0, 1, 1, 0, 0, 1, 0, 0, 0, 0, 0, 0, 1, 0], [8, 1, 1, 1, 1, 1, 1, 1, 1, 2, 2, 2, 1, 1, 1, 1, 2, 1, 2, 2, 1]]}
 EXPLANATION = ('Template t_marks declares a module with a doc comment, a type (public or private, any subset of copyable / cloneable / '
-               'defaultable, packed or aligned, 0..2 doc lines) with two fields (public / private, documented or not), an address-bound '
+               'defaultable, packed or aligned, 0..2 doc lines or three lines with an empty middle one) with two fields (public / private, documented or not), an address-bound '
                'function and a virtual function (public / private, documented or not) and an enum with the same markers.  It is executed '
                'symbolically through the semantic stage over every flag vector: the solver must refute, on every path, that the resolved model '
                'carries a visibility, marker, packing flag or doc text other than the declared one (copyable implies cloneable; the vftable '
@@ -23,7 +23,7 @@ ASSUMPTIONS = ['the all-inputs part is the semantic model; the emitted text and 
 
 
 def bounds(tier):
-    return {'items': 'one module, one type with two fields, one impl function, one type with a virtual function, one enum', 'doc lines per item': '0..2',
+    return {'items': 'one module, one type with two fields, one impl function, one type with a virtual function, one enum', 'doc lines per item': '0..2, and three lines with an empty middle line',
             'markers': 'every subset of copyable / cloneable / defaultable on the type and on the enum; packed or align(8)', 'pointer_size': [4, 8],
             'combination': 'all flags of the type group (type, fields, impl function) jointly with the other group pinned, and vice versa; not the full product of both groups'}
 
@@ -34,7 +34,7 @@ DOCS = (9, 10, 11, 16, 18, 19)
 def assume(a, ps, tier, group):
     """the type group varies everything about T, its fields and its impl function; the other group varies the enum, the virtual function and the
     module doc; the group that is not varied is pinned to one representative description (the flags are independent in the code under test)"""
-    A = [a[0] == ps] + [z3.ULE(a[i], 1) for i in (1, 2, 3, 4, 5, 6, 7, 8, 12, 13, 14, 15, 17, 20)] + [z3.ULE(a[i], 2) for i in DOCS]
+    A = [a[0] == ps] + [z3.ULE(a[i], 1) for i in (1, 2, 3, 4, 5, 6, 7, 8, 12, 13, 14, 15, 17, 20)] + [z3.ULE(a[i], 3) for i in DOCS]
     tgroup = (1, 2, 3, 5, 6, 7, 8, 9, 10); ogroup = (12, 13, 14, 15, 16, 17, 18, 19)      # a[4], a[11], a[20] (function and base field) vary in both groups
     pinned = ogroup if group == 'type' else tgroup
     PIN = {1: 1, 2: 1, 3: 0, 5: 0, 6: 1, 7: 0, 8: 0, 9: 1, 10: 1, 12: 1, 13: 1, 14: 0, 15: 1, 16: 1, 17: 1, 18: 1, 19: 1}
@@ -57,7 +57,8 @@ def slices(tier, rng):
 
 
 def doc_text(what, n):
-    return None if n == 0 else '\n'.join(' %s doc %d' % (what, i) for i in range(n))
+    # n == 3: three lines with an empty middle line (a bare `///` between two paragraphs)
+    return None if n == 0 else '\n'.join('' if (n == 3 and i == 1) else ' %s doc %d' % (what, i) for i in range(n))
 
 
 def leaf_queries(I, a, leaf, py, sl):
@@ -70,7 +71,7 @@ def leaf_queries(I, a, leaf, py, sl):
         if isinstance(got, z3.ExprRef): bad.append(got != cond)
         else: bad.append(z3.BoolVal(bool(got)) != cond)
     def doc_is(got, what, n):
-        for k in range(3):
+        for k in range(4):
             if got != doc_text(what, k): bad.append(n == k)
     try:
         T = Item(its['m::T']); E = Item(its['m::E']); V = Item(its['m::V']); VV = Item(its['m::VVftable'])
@@ -117,7 +118,7 @@ def region_env(a, sl): return {}
 
 def describe(template, args):
     a = [int(x) for x in args]
-    d = lambda what, n, ind='': ''.join('%s///%s\n' % (ind, l) for l in (doc_text(what, n) or '').split('\n') if l)
+    d = lambda what, n, ind='': ''.join('%s///%s\n' % (ind, l) for l in ([] if not n else doc_text(what, n).split('\n')))
     p = lambda f: 'pub ' if f else ''
     marks = lambda c, cl, df: ''.join(', ' + m for m, f in (('copyable', c), ('cloneable', cl), ('defaultable', df)) if f)
     return ('// pointer size %d\n%s%s#[%s%s]\n%stype T {\n%s    %sa: u64,\n    %sb: u64,\n}\nimpl T {\n%s    #[address(64)] %sfn g(&self) -> u32;\n}\n'
